@@ -207,6 +207,9 @@ func (c17) Run(e *Env) {
 	kind := kinds[e.Choose("kind", len(kinds))]
 	e.Probe("kind-" + strings.SplitN(kind, "-", 2)[0])
 	spec := BackendSpec{Kind: kind, BatchSize: []int{0, 1, 2, 3, 5, 21}[e.Choose("batch", 6)], Compress: e.Choose("compress", 2) == 1, MaxRequests: 2, FlushInterval: time.Second}
+	if strings.HasPrefix(kind, "otlp") {
+		spec.ResourceKeys = [][]string{nil, {"host"}, {"env", "host"}, {"team"}}[e.Draw(4)]
+	}
 	if spec.Compress {
 		e.Probe("compressed")
 	}
@@ -225,7 +228,7 @@ func (c17) Run(e *Env) {
 	agg := statsd.NewMetricAggregator(pcts, time.Hour, time.Hour, time.Hour, time.Hour, spec.Disabled, histLimit)
 
 	// the flushed map: unique name per series, k:v tags from [A-Za-z0-9_.:/-], values with <= 6 decimals
-	tagPoolC17 := []string{"env:prod", "az:a-1", "path:/x/y", "v:1.2", "team:core_infra"}
+	tagPoolC17 := []string{"env:prod", "az:a-1", "path:/x/y", "v:1.2", "team:core_infra", "vhost:web-1", "db_host:db.internal", "hostname:h1", "name:host"}
 	nSeries := 1 + e.Choose("series", 9)
 	in := gostatsd.NewMetricMap(false)
 	ts := gostatsd.Nanotime(time.Now().UnixNano())
@@ -325,7 +328,24 @@ func (c17) Run(e *Env) {
 		}
 	}
 
-	got := c17Send(e, spec, deepCopyFlushed(flushed), events)
+	// what the backend is handed is the aggregator's own map, shared with every other backend and
+	// kept for the next flush: tag slices with spare capacity as after Merge / the tag stage; the
+	// backend must leave it as it found it
+	handed := deepCopyFlushed(flushed)
+	spare := func(t gostatsd.Tags) gostatsd.Tags { return append(make(gostatsd.Tags, 0, len(t)+3), t...) }
+	handed.Counters.Each(func(n, k string, v gostatsd.Counter) { v.Tags = spare(v.Tags); handed.Counters[n][k] = v })
+	handed.Gauges.Each(func(n, k string, v gostatsd.Gauge) { v.Tags = spare(v.Tags); handed.Gauges[n][k] = v })
+	handed.Timers.Each(func(n, k string, v gostatsd.Timer) { v.Tags = spare(v.Tags); handed.Timers[n][k] = v })
+	handed.Sets.Each(func(n, k string, v gostatsd.Set) { v.Tags = spare(v.Tags); handed.Sets[n][k] = v })
+	canonMap := func(mm *gostatsd.MetricMap) string {
+		o, _ := Snapshot(mm)
+		return CanonObs(o) + tagsCanon(o)
+	}
+	beforeSend := canonMap(handed)
+	got := c17Send(e, spec, handed, events)
+	if after := canonMap(handed); after != beforeSend {
+		e.Failf("C17/backend-modified-the-flushed-map", "%s: the map handed to the backend (shared with the other backends and kept by the aggregator for the next flush) differs after the send\nbefore: %s\nafter:  %s", kind, beforeSend, after)
+	}
 	if spec.BatchSize > 0 && got.payloads > 1 {
 		e.Probe("small-batch-many-payloads")
 		e.Overlap = true
@@ -403,8 +423,32 @@ func (c17) Run(e *Env) {
 		}
 	}
 
+	// New Relic's flat event formats put the tags into the same JSON object as the metric's own
+	// attributes: a tag whose key equals the metric-name attribute ("name") replaces the series' name.
+	if kind == "newrelic-infra" || kind == "newrelic-insights" {
+		for _, k := range sortedKeys(obs) {
+			o := obs[k]
+			clash := false
+			for _, t := range o.Tags {
+				clash = clash || strings.HasPrefix(t, "name:")
+			}
+			if !clash {
+				continue
+			}
+			found := false
+			for _, p := range got.points {
+				found = found || strings.Contains(p.Name, o.Name)
+			}
+			if !found {
+				e.FailfSoft("C17/tag-overwrites-attribute:"+kind+":name", "%s: series %s carries a tag with key 'name'; in the payload that tag replaces the metric name, so the series is not identifiable any more", kind, k)
+				return // the rest of this payload cannot be attributed to series
+			}
+		}
+	}
+
 	// ---- every series present exactly once, with its aggregated values, tags and host
 	assigned := make([]bool, len(got.points))
+	var hostNamed, hostOmitted []string
 	for _, k := range sortedKeys(obs) {
 		o := obs[k]
 		var mine []WirePoint
@@ -462,7 +506,8 @@ func (c17) Run(e *Env) {
 				}
 			}
 		}
-		// host: where some point of the series names the source, all must
+		// host: where some point of the series names the source, all must; and a backend that names
+		// the source for one series names it for every series that has one
 		if o.Source != "" {
 			n := 0
 			for _, p := range mine {
@@ -472,6 +517,13 @@ func (c17) Run(e *Env) {
 			}
 			if n != 0 && n != len(mine) {
 				e.Failf("C17/host-inconsistent:"+kind, "%s: %d of %d points of series %s carry its source %s", kind, n, len(mine), k, o.Source)
+			}
+			if len(mine) > 0 {
+				if n > 0 {
+					hostNamed = append(hostNamed, string(k))
+				} else {
+					hostOmitted = append(hostOmitted, string(k))
+				}
 			}
 		}
 		// values
@@ -556,6 +608,9 @@ func (c17) Run(e *Env) {
 				need("percentile "+p.Str, p.Float)
 			}
 		}
+	}
+	if len(hostNamed) > 0 && len(hostOmitted) > 0 {
+		e.Failf("C17/host-missing-for-some-series:"+kind, "%s: in one flush the source is carried for series %v but not for series %v", kind, hostNamed, hostOmitted)
 	}
 	for i, p := range got.points {
 		if !assigned[i] {
